@@ -16,7 +16,7 @@
 (***************************************************************************)
 EXTENDS Frame, Json
 
-CONSTANT Family          \* "all" | "parse" | "view" | "field" | "alloc" | "table"
+CONSTANT Family          \* "all" | "parse" | "cfgparse" | "view" | "field" | "alloc" | "table"
 VARIABLE v
 
 Meta == [uncompared |-> Uncompared, uncomparedEverywhere |-> UncomparedEverywhere,
@@ -31,9 +31,11 @@ Vectors ==
     [] Family = "view"  -> Tag("view", ViewShapes)
     [] Family = "field" -> Tag("field", FieldVectors)
     [] Family = "alloc" -> Tag("alloc", AllocCases)
+    [] Family = "cfgparse" -> Tag("cfgparse", ConfigCases)
     [] Family = "table" -> Tag("table", FieldTable) \cup {[fam |-> "meta", c |-> Meta]}
     [] Family = "all"   -> Tag("parse", ParseShapes) \cup Tag("view", ViewShapes) \cup Tag("field", FieldVectors)
                            \cup Tag("alloc", AllocCases) \cup Tag("table", FieldTable) \cup {[fam |-> "meta", c |-> Meta]}
+                           \cup Tag("cfgparse", ConfigCases)
 
 Init == v \in Vectors
 Next == UNCHANGED v
@@ -55,12 +57,14 @@ OffsetsOK(s, o) ==
 OutcomeTotal ==
   CASE v.fam = "parse" -> LET o == ParseOutcome(v.c) IN o.err \in BOOLEAN /\ (~o.err => OffsetsOK(v.c, o))
     [] v.fam = "alloc" -> LET o == ParseOutcome(v.c.s) IN ~o.err /\ OffsetsOK(v.c.s, o) /\ WellFormed(v.c.s)
+    [] v.fam = "cfgparse" -> LET o == WithCfg(ParseOutcome(v.c.s), v.c.s, v.c.cfg) IN o.err \in BOOLEAN /\ (~o.err => OffsetsOK(v.c.s, o))
     [] OTHER -> TRUE
 
 (* mechanism against property level: the transcription of Parse as written differs from the      *)
 (* reference on exactly the named classes                                                        *)
 DeviationsNamed ==
-  v.fam = "parse" => Deviation(v.c) \in NamedDeviations
+  /\ v.fam = "parse" => Deviation(v.c) \in NamedDeviations
+  /\ v.fam = "cfgparse" => Deviation(v.c.s) \in NamedDeviations
 
 FieldVectorOK ==
   v.fam = "field" => /\ \A i \in DOMAIN v.c.bytes : v.c.bytes[i] \in 0..255
@@ -77,7 +81,10 @@ ViewShapeOK ==
 Export ==
   PrintT(ToJson(
     CASE v.fam = "parse" -> [fam |-> "parse", s |-> v.c, o |-> ParseOutcome(v.c), m |-> ParseM(v.c), dev |-> Deviation(v.c),
-                             strictErr |-> StrictErr(v.c), wf |-> WellFormed(v.c), ranges |-> ParseRanges(v.c)]
+                             strictErr |-> StrictErr(v.c), wf |-> WellFormed(v.c), ranges |-> ParseRanges(v.c), cfg |-> "default"]
+      [] v.fam = "cfgparse" -> [fam |-> "parse", s |-> v.c.s, o |-> WithCfg(ParseOutcome(v.c.s), v.c.s, v.c.cfg),
+                                m |-> WithCfg(ParseM(v.c.s), v.c.s, v.c.cfg), dev |-> Deviation(v.c.s), strictErr |-> StrictErr(v.c.s),
+                                wf |-> WellFormed(v.c.s), ranges |-> ParseRanges(v.c.s), cfg |-> v.c.cfg]
       [] v.fam = "alloc" -> [fam |-> "alloc", s |-> v.c.s, status |-> v.c.status, x |-> AllocExpect(v.c), ranges |-> ParseRanges(v.c.s)]
       [] OTHER -> v))
 
